@@ -46,7 +46,7 @@ func (c20) Runs(tier string) int {
 
 func (c20) Components() ([]string, []string) {
 	return []string{"uniprot.Parse (token loop, entry decoding, EOF detection, error forwarding, channel closing)", "uniprot.Read on run-private gzip files (real OS)", "uniprot Entry/SequenceType/xsdDate unmarshalling (xml.go)", "encoding/xml", "compress/gzip"},
-		[]string{"SimReader (chunking, truncation, flipped/deleted/inserted byte, sticky read error)", "entry and error channels and their consumers (simulator-owned actors: sequential or concurrent)", "goroutine scheduler", "reference pass (plain xml.Decoder + three-field struct over the same damaged bytes)", "abstract entry list"}
+		[]string{"SimReader (chunking, truncation, flipped/deleted/inserted byte, sticky read error)", "entry and error channels and their consumers (goroutines of the harness blocking in real receives, sequential or concurrent; when they receive is a scheduling decision)", "goroutine scheduler", "reference pass (plain xml.Decoder + three-field struct over the same damaged bytes)", "abstract entry list"}
 }
 
 func (c20) Rule() string {
@@ -751,6 +751,7 @@ func (c20) Run(t *testing.T, tape *core.Tape, rcx *RunCtx) *core.Result {
 	res.Nontrivial = sim.Multi > 0 || fault != "none"
 	res.ShapeKey = fmt.Sprintf("%s|k%d|gz%v|%s@%d|ce%d|cx%d|%s|%s", sc.Entry, len(entries), sc.Gzip, fault, faultAt, sc.CapEntries, sc.CapErrors, sc.Consumer[:3], sc.Reader)
 	res.Count("decisions_with_choice", int64(sim.Multi))
+	res.Count("fault_timer_wins_race_time_passes_while_runnable", int64(sim.Jitters))
 	res.Count("fault_consumer_stall_in_simulated_time", int64(stallCount))
 	res.SimTimeNs = int64(sim.SimTime)
 	res.Count("probe_reference_class_"+sc.RefClass, 1)
